@@ -49,9 +49,20 @@ def loc(d, s):
     return SUBDIRS[:d - s['up']] + list(s['dirs'])
 
 
-def ref(s):
-    return '/'.join(['..'] * s['up'] + list(s['dirs']) +
-                    [s['stem'] + '.' + s['ext']])
+GEN_EXT = {'qtmoc': 'hpp', 'lex': 'l', 'yacc': 'y', 'qrc': 'qrc', 'qtui': 'ui'}
+
+
+def fname(s, kind=''):
+    if kind.startswith('gen_'):
+        # the input of a source generator: the (stem, extension) pair of the
+        # abstract source stays visible in the file's name
+        return s['stem'] + ('' if s['ext'] == 'c' else '.cpp') + '.' + \
+            GEN_EXT[kind[4:]]
+    return s['stem'] + '.' + s['ext']
+
+
+def ref(s, kind=''):
+    return '/'.join(['..'] * s['up'] + list(s['dirs']) + [fname(s, kind)])
 
 
 def make_project(root, case):
@@ -67,9 +78,16 @@ def make_project(root, case):
             if i < d:
                 f.write("submodule(%r)\n" % SUBDIRS[i])
             else:
-                refs = [ref(s) for s in case['sources']]
                 kind = case['kind']
-                if kind == 'copy':
+                refs = [ref(s, kind) for s in case['sources']]
+                if kind.startswith('gen_'):
+                    f.write("r = generated_sources(%r, lang=%r)\n" % (
+                        refs, kind[4:]))
+                    f.write("r = [x[0] if isinstance(x, list) else x "
+                            "for x in r]\n")
+                    f.write("print('VERIF-OUT', repr([[x.path.root.name, "
+                            "x.path.suffix] for x in r]))\n")
+                elif kind == 'copy':
                     f.write("r = copy_files(%r, directory='cp')\n" % refs)
                     f.write("print('VERIF-OUT', repr([[x.path.root.name, "
                             "x.path.suffix] for x in r]))\n")
@@ -85,7 +103,7 @@ def make_project(root, case):
     for k, s in enumerate(case['sources']):
         p = os.path.join(src, *loc(d, s))
         os.makedirs(p, exist_ok=True)
-        with open(os.path.join(p, s['stem'] + '.' + s['ext']), 'w') as g:
+        with open(os.path.join(p, fname(s, case['kind'])), 'w') as g:
             g.write('int f_%s_%d(void){return %d;}\n' % (
                 ''.join(c for c in s['stem'] if c.isalnum()), k, k))
     return src
@@ -102,7 +120,7 @@ def run_case(arg):
         outs = []
         notes = {}
         if rc == 0:
-            if case['kind'] == 'copy':
+            if case['kind'] == 'copy' or case['kind'].startswith('gen_'):
                 for line in out.splitlines():
                     if line.startswith('VERIF-OUT'):
                         lst = eval(line[len('VERIF-OUT '):])
@@ -382,8 +400,14 @@ def main(argv):
                                    'ext': 'c'},
                                   {'up': 0, 'dirs': [], 'stem': 'x',
                                    'ext': 'c'}]})
+    # the same source sets as inputs of the source generators (moc, lex,
+    # yacc, rcc, uic): generated sources are implicitly named outputs too
+    gens = [c for c in cases if c['kind'] == 'copy']
+    for i, c in enumerate(gens):
+        cases.append(dict(c, kind='gen_' + sorted(GEN_EXT)[i % len(GEN_EXT)]))
     nbuild = 60 if ck.quick else 600
-    res = pmap(run_case, [(c, i < nbuild and c['kind'] != 'object_files')
+    res = pmap(run_case, [(c, i < nbuild and c['kind'] != 'object_files' and
+                           not c['kind'].startswith('gen_'))
                           for i, c in enumerate(cases)])
     traces = []
     for i, (ev, out) in enumerate(res):
@@ -413,7 +437,7 @@ def main(argv):
         key = 'C05:%s:%s:%s' % (clause, ev['kind'],
                                 'intdirs' if ev['intdirs'] else 'flat')
         ck.report(key, '%s: %s' % (clause, json.dumps(
-            {'refs': [ref(s) for s in ev['sources']], 'depth': ev['d'],
+            {'refs': [ref(s, ev['kind']) for s in ev['sources']], 'depth': ev['d'],
              'exit': ev['exit'], 'outs': ev['outs'], 'tail': out[-200:]})),
             {'case': cases[tid - 1], 'event': ev, 'output': out})
     bad_build = [ev for ev, _ in res if ev.get('build_exit', 0) != 0 or
